@@ -88,18 +88,38 @@ def force_procs(table):
     """Force the 2-D process grid that setupCylindricalGrid / setupFromFile use:
     table maps communicator size -> (p1, p2); other sizes use the code's choice."""
     import pygyro.initialisation.setups as S
-    orig = S.compute_2d_process_grid
+    import pygyro.model.process_grid as PG
+    orig_s = getattr(S, 'compute_2d_process_grid', None)
+    orig_p = getattr(PG, 'compute_2d_process_grid', None)
+    orig = orig_p or orig_s
 
     def forced(npts, size):
         g = table.get(int(size))
         if g is None:
             return orig(npts, size)
         return (int(g[0]), int(g[1]))
-    S.compute_2d_process_grid = forced
+    if orig_s is not None:
+        S.compute_2d_process_grid = forced
+    if orig_p is not None:
+        PG.compute_2d_process_grid = forced
     try:
         yield
     finally:
-        S.compute_2d_process_grid = orig
+        if orig_s is not None:
+            S.compute_2d_process_grid = orig_s
+        if orig_p is not None:
+            PG.compute_2d_process_grid = orig_p
+
+
+def check_forced(f, g):
+    """The process grid the harness asked for must be the one in use; if the seam is no longer
+    reached this is the harness's problem (exit 2), not a property violation."""
+    from harness import HarnessProblem
+    lay = f.getLayout('v_parallel')
+    got = [int(x) for x in lay.nprocs[:2]]
+    if got != [int(g[0]), int(g[1])]:
+        raise HarnessProblem('forced process grid %r not used (code chose %r): the seam '
+                             'compute_2d_process_grid is no longer reached' % (list(g), got))
 
 
 # ---------------------------------------------------------------------------
